@@ -999,6 +999,15 @@ class PyExec:
                     h.set("list.el", z3.Store(h.get("list.el"), recv.addr, arr))
                     h.set("list.len", z3.Store(h.get("list.len"), recv.addr, ln + 1))
                 return PNone()
+            if meth == "extend" and recv.cls == "list" and isinstance(a[0], PRef) and a[0].cls == "list":
+                # lst.extend(other): other's elements appended in order
+                ol, oa = h.len(a[0].addr), h.els(a[0].addr)
+                mine = h.els(recv.addr)
+                i = z3.Int("i!ext%d" % self.tick_id())
+                na = z3.Lambda([i], z3.If(i < ln, z3.Select(mine, i), z3.Select(oa, i - ln)))
+                h.set("list.el", z3.Store(h.get("list.el"), recv.addr, na))
+                h.set("list.len", z3.Store(h.get("list.len"), recv.addr, ln + ol))
+                return PNone()
             raise OutOfSubset("list method %s" % meth)
         if isinstance(recv, PRef) and recv.cls == "set":
             if meth == "add":
